@@ -658,7 +658,7 @@ def main(argv=None):
         source_sha256={os.path.relpath(f, REPO): file_sha(f) for f in files},
         lemmas=list(getattr(mod, 'LEMMAS', [])),
         tasks=len(tasks), paths=n_paths, solver_queries=queries, solver_s=round(solver_s, 2), backends=backends,
-        sentinels=sent_report, undecided=undecided[:20], engine_errors=errors[:20], vacuity=vacuity[:20], unbound_contracts=unbound[:20], degraded_tasks=degraded[:40],
+        sentinels=sent_report, undecided=undecided[:20], engine_errors=errors[:20], vacuity=vacuity[:20], unbound_contracts=unbound[:200], degraded_tasks=degraded[:200],
         known_findings=[dict(id=k.get('id'), obligation=r['obligation'], task=r['task']) for k, r in known_hits],
         not_decided=list(getattr(mod, 'NOT_DECIDED', [])),
     )
